@@ -106,3 +106,23 @@ def write_keep_file(path, names, rng):
         lines.append(rng.choice((b'', b'  ')) + n + rng.choice((b'', b' ', b'\t')))
     with open(path, 'wb') as fh:
         fh.write(b'\n'.join(lines) + (b'\n' if rng.random() < 0.8 else b''))
+
+
+def stats_cli(path):
+    """`p8tool stats cart` -> {'lines': [...], 'tokens': int, 'chars': int} parsed from what the command prints."""
+    import io
+    import re
+    from pico8 import tool, util
+    buf = io.StringIO()
+    saved = (util._write_stream, util._verbosity)
+    util._write_stream = buf
+    util.set_verbosity(util.VERBOSITY_NORMAL)
+    try:
+        rcode = tool.main(['stats', path])
+    finally:
+        util._write_stream, util._verbosity = saved
+    text = buf.getvalue()
+    m = re.search(r'^- tokens: (\d+)$', text, re.M)
+    c = re.search(r'^- chars: (\d+)$', text, re.M)
+    return {'rcode': rcode, 'text': text, 'lines': text.splitlines(), 'tokens': int(m.group(1)) if m else None,
+            'chars': int(c.group(1)) if c else None}
